@@ -419,8 +419,8 @@ func (fc *FnCtx) doSelect(x *ssa.Select) {
 			fc.anchorArgs = []Val{fc.operand(s.Chan), fc.operand(s.Send)}
 			fc.anchorBefore("send "+class, s.Pos)
 			fc.anchorAfter("send "+class, s.Pos)
-			if fc.chanNoDrop(class) && len(x.States) > 1 {
-				fc.obligeAt(fc.cur, "chan-nodrop", class, "false", x.Pos(), "a message for channel "+class+" may be dropped: the send is one of several select cases")
+			if fc.chanNoDrop(class) && (len(x.States) > 1 || !x.Blocking) {
+				fc.obligeAt(fc.cur, "chan-nodrop", class, "false", x.Pos(), "a message for channel "+class+" may be dropped: the send is one of several select cases or has a default")
 			}
 			if inv != nil {
 				env := fc.anchorEnv()
